@@ -847,7 +847,11 @@ func (f *fnTrans) frameFormula(h string, locs []Term, before, after, allocTopBef
 	if !s.IsArray() {
 		return Eq(after, before)
 	}
-	conds := []string{fmt.Sprintf("(<= (root r) %s)", allocTopBefore.S)}
+	conds := []string{"true"}
+	if allocTopBefore.S != "" {
+		// objects allocated during the call may be written freely
+		conds = append(conds, fmt.Sprintf("(<= (root r) %s)", allocTopBefore.S))
+	}
 	for _, l := range locs {
 		if strings.HasPrefix(l.S, "elt:") {
 			conds = append(conds, fmt.Sprintf("(not (and (= (subtag r) 1) (= (elt$arr r) %s)))", strings.TrimPrefix(l.S, "elt:")))
@@ -871,6 +875,9 @@ func (f *fnTrans) frameObligations(ins *ssa.Return, ord int) {
 	top0 := Sym("G$allocTop@0", SInt)
 	if t, ok := f.entry.h["G$allocTop"]; ok {
 		top0 = t
+	}
+	if !f.w.modsets[f.fn]["G$allocTop"] {
+		top0 = Term{}
 	}
 	for _, h := range f.w.ModsetOf(f.fn) {
 		if fs.whole[h] || h == "G$allocTop" {
